@@ -222,7 +222,7 @@ func Replay(s Schedule) (Obs, []Step, error) {
 		return ""
 	}
 	for i := 1; i <= n; i++ {
-		if waitAt(i, 2*time.Second) != "start" {
+		if waitAt(i, 15*time.Second) != "start" {
 			return o, nil, fmt.Errorf("goroutine %d did not start", i)
 		}
 	}
@@ -247,7 +247,7 @@ func Replay(s Schedule) (Obs, []Step, error) {
 			break
 		}
 		g.release(st.G)
-		at := waitAt(st.G, 2*time.Second)
+		at := waitAt(st.G, 15*time.Second)
 		ok := false
 		for _, x := range arrive[st.A] {
 			if x == at {
@@ -269,7 +269,7 @@ func Replay(s Schedule) (Obs, []Step, error) {
 	for i := 0; i < n; i++ {
 		select {
 		case <-done[i]:
-		case <-time.After(5 * time.Second):
+		case <-time.After(20 * time.Second):
 			o.Hung = true
 		}
 	}
